@@ -215,7 +215,115 @@ async fn run_case(c: Case) -> Vec<(String, String)> {
     viols
 }
 
+/// Opens of UDP associations (the magic destination): a v2 peer gets exactly one verdict for the stream, whatever the
+/// initial request that follows looks like; an older peer gets none.
+async fn run_udp_open_case(version: Option<&'static str>, initial: (&'static str, Vec<u8>), fin_after: bool) -> Vec<(String, String)> {
+    let mut viols = vec![];
+    let link = peer_link(PipeCfg::new("c2s"), PipeCfg::new("s2c"));
+    let mut side = start_server_session(link.sess_r, link.sess_w, padding(STOP0), None);
+    let sess = side.sess.clone();
+    let s2 = sess.clone();
+    tokio::spawn(async move {
+        while let Some(st) = side.streams.recv().await {
+            let s3 = s2.clone();
+            tokio::spawn(async move {
+                let h = TcpProxyHandler::new();
+                let _ = h.handle_stream(st, s3).await;
+            });
+        }
+    });
+    let mut peer = link.peer;
+    let settings = match version {
+        None => "client=x\npadding-md5=0".to_string(),
+        Some(v) => format!("v={v}\nclient=x\npadding-md5=0"),
+    };
+    peer.send(SETTINGS, 0, settings.as_bytes());
+    peer.send(SYN, 9, b"");
+    let magic = b"sp.v2.udp-over-tcp.arpa";
+    let mut dest = vec![3u8, magic.len() as u8];
+    dest.extend_from_slice(magic);
+    dest.extend_from_slice(&[0, 0]);
+    peer.send(PSH, 9, &dest);
+    tokio::time::sleep(std::time::Duration::from_millis(150)).await;
+    if !initial.1.is_empty() {
+        peer.send(PSH, 9, &initial.1);
+    }
+    if fin_after {
+        peer.send(FIN, 9, b"");
+    }
+    let v2 = version.and_then(|v| v.parse::<u8>().ok()).map(|v| v >= 2).unwrap_or(false);
+    let mut synacks: Vec<Vec<u8>> = vec![];
+    let t0 = tokio::time::Instant::now();
+    while t0.elapsed().as_millis() < 1500 {
+        match real_timeout(200, peer.next_frame()).await {
+            Some(Some(f)) if f.cmd == SYNACK && f.id == 9 => synacks.push(f.data.clone()),
+            Some(None) => break,
+            _ => {}
+        }
+    }
+    let what = format!("UDP association open, peer version {:?}, initial request: {}{}", version, initial.0, if fin_after { ", then FIN" } else { "" });
+    if v2 {
+        if synacks.len() != 1 {
+            viols.push((if synacks.is_empty() { "C10:server-no-synack".into() } else { "C10:server-duplicate-synack".into() }, format!("{what}: {} verdicts for one open: {:?}", synacks.len(), synacks.iter().map(|d| String::from_utf8_lossy(d).to_string()).collect::<Vec<_>>())));
+        }
+    } else if !synacks.is_empty() {
+        viols.push(("C10:server-synack-to-v1-peer".into(), format!("{what}: SYNACK sent to a peer that did not announce version >= 2")));
+    }
+    let _ = sess.close().await;
+    viols
+}
+
 pub fn server_half(rep: &mut Report, tier: Tier) {
+    {
+        let udp_target = std::net::UdpSocket::bind("127.0.0.1:0").ok().and_then(|s| s.local_addr().ok()).map(|a| a.port()).unwrap_or(9);
+        let mut valid = vec![1u8, 1, 127, 0, 0, 1];
+        valid.extend_from_slice(&udp_target.to_be_bytes());
+        let initials: Vec<(&'static str, Vec<u8>)> = vec![
+            ("valid (IPv4 target)", valid),
+            ("isConnect = 0", vec![0, 1, 127, 0, 0, 1, 0, 53]),
+            ("unknown address type", vec![1, 9, 1, 2, 3, 4, 0, 53]),
+            ("empty domain", vec![1, 3, 0, 0, 53]),
+            ("domain that is not UTF-8", vec![1, 3, 2, 0xff, 0xfe, 0, 53]),
+            ("unresolvable domain", { let mut v = vec![1u8, 3, 20]; v.extend_from_slice(b"no-such-host.invalid"); v.extend_from_slice(&[0, 53]); v }),
+            ("nothing", vec![]),
+            ("truncated", vec![1, 1, 127]),
+        ];
+        let mut ucases = vec![];
+        for version in [Some("2"), Some("1"), None] {
+            for init in &initials {
+                for fin in [false, true] {
+                    if (version != Some("2") || !tier.is_thorough()) && fin && init.0 != "truncated" && init.0 != "nothing" {
+                        continue;
+                    }
+                    ucases.push((version, init.clone(), fin));
+                }
+            }
+        }
+        let results = block_on(async {
+            let mut hs = vec![];
+            for (v, i, f) in ucases.clone() {
+                hs.push(tokio::spawn(run_udp_open_case(v, i, f)));
+            }
+            let mut out = vec![];
+            for h in hs {
+                out.push(h.await);
+            }
+            out
+        });
+        for ((v, i, f), r) in ucases.iter().zip(results) {
+            let name = format!("semi udp-open version {:?} initial {} fin {}", v, i.0, f);
+            rep.case(Some(&name));
+            rep.traces_validated += 1;
+            match r {
+                Err(e) => rep.violation("panic:task", &format!("{name}: {e}"), json!({"engine": "SEMI", "case": name})),
+                Ok(vs) => {
+                    for (k, d) in vs {
+                        rep.violation(&k, &d, json!({"engine": "SEMI", "case": name}));
+                    }
+                }
+            }
+        }
+    }
     let mut cases = vec![];
     for version in [None, Some("1"), Some("2"), Some("3")] {
         for accepting in [true, false] {
